@@ -299,7 +299,7 @@ class Model:
             return yaw.Catalog.from_random(path, self.gen, size, chunksize=chunksize, max_workers=None, **pk)
 
         saved_tc = ycat.treecorr
-        ycat.treecorr = wl.SeededTreecorr(case["gen_seed"] % 9973)
+        seeded_tc = ycat.treecorr = wl.SeededTreecorr(case["gen_seed"] % 9973)
         writer_errors: list[str] = []
         try:
             if workers <= 1:
@@ -323,6 +323,8 @@ class Model:
             raise
         except Exception as err:  # noqa: BLE001 - any library exception on fault-free input
             text = str(err) + " | " + " | ".join(writer_errors)
+            if seeded_tc.degenerate:
+                return  # k-means produced a non-finite centre: degenerate input, any refusal is legal
             if "contains no data" in text and mode != "apply":
                 return  # generated centre without objects: legal refusal (raised in the writer process)
             raise HistoryViolation(
